@@ -147,6 +147,9 @@ func runGCProg(p *Plan, tape *simrt.Tape, opt RunOpt) *RunOut {
 	pmax := uint64(p.Cfg.PrimaryFile)
 	imax := uint64(p.Cfg.IndexFile)
 	bgall := p.x("bgall", 0) == 1
+	if os.Getenv("VERIF_DEBUG_FSLOG") != "" {
+		fs.KeepLog = true
+	}
 	pause := simrt.NewRand(p.Seed ^ 0xb9a11)
 	w, res := world(p, tape, fs, opt, nil, func() {
 		if bgall {
@@ -178,6 +181,12 @@ func runGCProg(p *Plan, tape *simrt.Tape, opt RunOpt) *RunOut {
 			return
 		}
 		mp := d.mhPrimary()
+		// with the flusher and the collectors running (background-from-the-start
+		// class) the directory listing and the current file number are not one
+		// snapshot: list first, read the number afterwards, and take the files
+		// below it (the current file only ever advances, so these are non-current
+		// whatever happened in between)
+		listed := numberedFiles(fsOf().Files(), dataPath)
 		curFile := uint64(mp.VerifCurrentFile())
 		// which primary files hold live data now
 		locs := d.allLocs()
@@ -187,12 +196,15 @@ func runGCProg(p *Plan, tape *simrt.Tape, opt RunOpt) *RunOut {
 			liveIn[fileOf(b)] = append(liveIn[fileOf(b)], dg)
 		}
 		nonCurrent := []uint64{}
-		for f := range numberedFiles(fsOf().Files(), dataPath) {
-			if uint64(f) != curFile {
+		for f := range listed {
+			if uint64(f) < curFile {
 				nonCurrent = append(nonCurrent, uint64(f))
 			}
 		}
 		sort.Slice(nonCurrent, func(i, j int) bool { return nonCurrent[i] < nonCurrent[j] })
+		if os.Getenv("VERIF_DEBUG_FSLOG") != "" {
+			fmt.Printf("MEASURE t=%d curFile=%d nonCurrent=%v\n", simrt.Current().Now(), curFile, nonCurrent)
+		}
 		if len(nonCurrent) == 0 {
 			d.Probes["no-noncurrent-file"]++
 			d.CloseStore("final")
@@ -657,6 +669,15 @@ func (d *Driver) gcProgBackground(p *Plan, target map[uint64]bool, oldFirst uint
 					pos += 4 + int(sz&^delBit)
 				}
 				diag += fmt.Sprintf(" [file %d: %d bytes, unmarked %d in %d records at%s, marked free %d, referenced by the index %d, parses=%v]", f, len(data), l, n, offs, fr, live, ok)
+			}
+			if os.Getenv("VERIF_DEBUG_FSLOG") != "" {
+				for _, r := range fsOf().Log {
+					for _, f := range pl {
+						if strings.HasSuffix(r.Path, fmt.Sprintf("data.%d", f)) || strings.Contains(r.Path, "data.info") || strings.Contains(r.Path, ".free") {
+							fmt.Printf("FSLOG seq=%d t=%d task=%d %s %s %s off=%d n=%d\n", r.Seq, r.Now, r.Task, r.Kind, r.Path, r.Path2, r.Off, r.N)
+						}
+					}
+				}
 			}
 			d.fail("gcprog/bg-primary-not-released", "after %d primary and %d index GC cycles of the background collectors (interval %d ms, time limit %d ms) on an idle store, primary files %v still hold bytes although every record in them was superseded and flushed%s", pcycles, icycles, gcMs, d.Cfg.GCLimitMs, pl, diag)
 		} else {
